@@ -138,6 +138,19 @@ func Discharge(obls []*Obl, timeoutS int, confirm bool, workers int) (disagreeme
 				o := obls[i]
 				best, all := decide(dir, i, o.Query(true), timeoutS, confirm)
 				o.Result, o.Solver, o.TimeS = best.status, best.solver, best.secs
+				if best.status != "unsat" && best.status != "sat" && strings.Contains(o.Query(false), "(forall ") {
+					// undecided with quantified hypotheses: look for a candidate
+					// counterexample without them (believed only after replay)
+					o2 := *o
+					o2.DropQuantified = true
+					cand, _ := decide(dir, i+1000000, o2.Query(true), 10, false)
+					if cand.status == "sat" {
+						o.Result = "sat-candidate"
+						o.Solver = cand.solver
+						o.Model = "candidate model found with quantified hypotheses dropped (undecided with them: " + best.status + ")\n" + cand.out
+						continue
+					}
+				}
 				if best.status == "sat" {
 					o.Model = best.out
 				} else if best.status != "unsat" {
